@@ -197,6 +197,16 @@ def fmt_line(i, c, r):
     return "{:9d} {:20.4f} {:18.6f}".format(i, c, r)
 
 
+def lines_of_report(d):
+    """the progress lines as a function of the report (Python mirror of OptLoop.verbose_lines)"""
+    out = [fmt_line(0, unbits(d['initial']), None)]
+    for i, (_, c, r) in enumerate(d['iters']):
+        if c is None:
+            break
+        out.append(fmt_line(i + 1, unbits(c), unbits(r)))
+    return out
+
+
 def scripted_outcome(graph, tol, max_iter, verbose, ffp):
     g = copy.deepcopy(graph)
     res, exc, out = call_optimize(g, tol, max_iter, verbose, ffp)
@@ -470,6 +480,10 @@ def run_scripted(seed, tier, extra_tables=None):
                             sf = statement_failures(exp, got)
                             if got['final'] != got['calc_chi2_after']:
                                 sf.append('final_vs_calc_chi2')
+                            if vb and got['raised'] is None and got['lines'] != lines_of_report(got):
+                                sf.append('printed lines are not the report values')
+                            if not vb and not got['stdout_empty']:
+                                sf.append('verbose=False printed something')
                             if sf:
                                 res['oracle_failures'].append(dict(case, fields=sf, expected=exp,
                                                                    got={k: got[k] for k in exp}))
@@ -740,5 +754,9 @@ def replay_scripted(p):
     sf = statement_failures(exp, got)
     if got['final'] != got['calc_chi2_after']:
         sf.append('final_vs_calc_chi2')
+    if p['verbose'] and got['raised'] is None and got['lines'] != lines_of_report(got):
+        sf.append('printed lines are not the report values')
+    if not p['verbose'] and not got['stdout_empty']:
+        sf.append('verbose=False printed something')
     print('expected %s\ngot      %s\nfields   %s' % (exp, {k: got[k] for k in exp}, sf))
     return 1 if sf else 0
